@@ -169,12 +169,17 @@ pub struct GetBlockResp(pub Option<Block>);                                   //
 #[verifier::external_body] pub struct ReservedCall { _p: u8 }                 // rpc::ReservedCall<get_block::Rpc>
 impl ReservedCall {
     // the peer answers whatever it likes
+    // "if the peer .. times out .. the request becomes available again": the call runs under the configured get_block timeout
     #[verifier::external_body]
-    pub async fn call(self, ctx: &Ctx, req: &GetBlockReq, max_resp_size: usize) -> (r: Result<GetBlockResp, AnyhowError>) { unimplemented!() }
+    pub async fn call(self, ctx: &Ctx, req: &GetBlockReq, max_resp_size: usize, Ghost(configured): Ghost<Option<Duration>>) -> (r: Result<GetBlockResp, AnyhowError>)
+        requires configured.is_some() ==> ctx.limit() == configured,
+    { unimplemented!() }
 }
-// R-stub: `self.cfg.rpc.get_block_timeout.map(|t| ctx.with_timeout(t))` + `.as_ref().unwrap_or(ctx)`: a context that is cancelled no later
-#[verifier::external_body]
-pub fn ctx_with_optional_timeout<'a>(ctx: &'a Ctx, t: Option<Duration>) -> (r: &'a Ctx) { unimplemented!() }
+// which time limit a context carries on top of the connection's context (None for the connection's own context: A4)
+impl Ctx {
+    pub uninterp spec fn limit(&self) -> Option<Duration>;
+    #[verifier::external_body] pub fn with_timeout(&self, t: Duration) -> (r: Ctx) ensures r.limit() == Some(t) { unimplemented!() }
+}
 pub trait VerifContext<T> { fn context(self, c: ()) -> Result<T, AnyhowError>; }
 impl<T> VerifContext<T> for Option<T> {      // anyhow::Context on Option: Some(v) -> Ok(v), None -> Err (A1)
     #[verifier::external_body] fn context(self, c: ()) -> (r: Result<T, AnyhowError>)
@@ -306,8 +311,8 @@ def build(repo):
                    "(this: &Network, ctx: &Ctx, call: ReservedCall, req: GetBlockReq, send_resp: OneshotSender) -> (r: Result<(), AnyhowError>)",
                    block=True, fn_kw="async fn", brace_at=1,
                    subs=[("self.", "this.", None),
-                         ("let ctx_with_timeout =\n                                this.cfg.rpc.get_block_timeout.map(|t| ctx.with_timeout(t));\n                            let ctx = ctx_with_timeout.as_ref().unwrap_or(ctx);",
-                          "let ctx = ctx_with_optional_timeout(ctx, this.cfg.rpc.get_block_timeout);   /* R-stub */"),
+                         (".map(|t| ctx.with_timeout(t))", ".map(|t: Duration| -> (verif_c: Ctx) ensures verif_c.limit() == Some(t) { ctx.with_timeout(t) })   /* W-closure */"),
+                         (".call(ctx, &req, $M)", ".call(ctx, &req, $M, Ghost(this.cfg.rpc.get_block_timeout))   /* W-ghost */"),
                          ("anyhow::Ok(())", "Ok(())")],
                    spec="""
     requires taken(req.0.0, send_resp.id()),       // (req, send_resp) is what accept_block returned: postcondition of Queue::accept_block
